@@ -134,6 +134,10 @@ func (e *dExec) invariant(site string) {
 	if len(b.Data) > len(e.written) || string(b.Data) != string(e.written[len(e.written)-len(b.Data):]) {
 		e.find("C04", "buffer contents are not the tail of the reference expansion", site,
 			fmt.Sprintf("len=%d written=%d", len(b.Data), len(e.written)))
+		if e.dd {
+			e.find("C07", "Decoder does not reproduce the bytes of the well-formed stream it accepted", site,
+				fmt.Sprintf("len=%d written=%d", len(b.Data), len(e.written)))
+		}
 		e.dead = true
 		return
 	}
@@ -153,6 +157,8 @@ func (e *dExec) invariant(site string) {
 		g := e.w.got
 		if len(g) > len(e.written) || string(g) != string(e.written[:len(g)]) {
 			e.find("C18", "bytes accepted by the writer are not a prefix of the reference expansion", site,
+				fmt.Sprintf("got=%d written=%d", len(g), len(e.written)))
+			e.find("C07", "Decoder does not reproduce the bytes of the well-formed stream it accepted", site,
 				fmt.Sprintf("got=%d written=%d", len(g), len(e.written)))
 		}
 		if len(g) != e.delivered {
